@@ -24,6 +24,21 @@ type Case struct {
 	// was hashed before. "" | point | swap | block
 	Prior    string `json:"prior,omitempty"`
 	PriorPos int    `json:"prior_pos,omitempty"`
+	// Only (for sequences above 20 000 letters, to bound the cost of a case): the flag pairs judged, as
+	// bits 1<<(2*circular+doubleStranded), and whether the RNA spelling is judged too. 0 = everything.
+	Only    int  `json:"only,omitempty"`
+	SkipRNA bool `json:"skip_rna,omitempty"`
+}
+
+func (c Case) judged(circ, ds bool) bool {
+	bit := 0
+	if circ {
+		bit += 2
+	}
+	if ds {
+		bit++
+	}
+	return c.Only == 0 || c.Only&(1<<bit) != 0
 }
 
 // sibling derives the prior input from the (upper-case) sequence.
@@ -121,7 +136,13 @@ func check(c Case) error {
 	}
 	for _, circ := range []bool{false, true} {
 		for _, ds := range []bool{false, true} {
+			if !c.judged(circ, ds) {
+				continue
+			}
 			for _, v := range []struct{ typ, s, rc string }{{"DNA", dna, rcDNA}, {"RNA", rna, rcRNA}} {
+				if v.typ == "RNA" && c.SkipRNA {
+					continue
+				}
 				h0, err := hash(v.s, v.typ, circ, ds)
 				if err != nil {
 					return err
@@ -174,6 +195,9 @@ func check(c Case) error {
 				}
 			}
 			// RNA spelling vs DNA spelling: differ only in the molecule-type letter
+			if c.SkipRNA {
+				continue
+			}
 			hd, err := hash(dna, "DNA", circ, ds)
 			if err != nil {
 				return err
@@ -269,16 +293,20 @@ func gen(t *rapid.T) Case {
 			c.PriorPos = rapid.IntRange(n/4, 3*n/4).Draw(t, "prior_pos_mid")
 		}
 	}
-	if n <= 200 {
+	if n <= 64 {
 		c.AllOffsets = true
 	} else {
-		k := 16
+		k := 8
 		if n > 5000 {
 			k = 3 // long sequences: fewer offsets per case, the case count carries the coverage
 		}
 		c.Offsets = rapid.SliceOfN(rapid.IntRange(0, 1<<30), k, k).Draw(t, "offsets")
 	}
 	c.CaseMask = rapid.Uint64().Draw(t, "case_mask")
+	if n > 20000 {
+		c.Only = 1<<3 | 1<<rapid.IntRange(0, 2).Draw(t, "second_flag_pair") // circular double-stranded and one more
+		c.SkipRNA = rapid.Bool().Draw(t, "skip_rna")
+	}
 	return c
 }
 
